@@ -34,6 +34,9 @@ type c12Case struct {
 	Traffic bool     `json:"traffic_in_flight"`
 	Ending  string   `json:"ending"`  /* close-in | close-out | close-both | eof */
 	Trigger string   `json:"trigger"` /* line | ctrl-d */
+	/* QuietMs: how long the attached shell is left alone between the two
+	round trips made after the listener has closed; 0 means 2500. */
+	QuietMs int `json:"quiet_ms,omitempty"`
 }
 
 func chunk(s string) string { return fmt.Sprintf("%x\r\n%s\r\n", len(s), s) }
@@ -116,6 +119,32 @@ func c12Run(c c12Case, base string) (string, string) {
 			cn.Close()
 			if !waitNotice(`Shell is gone`) {
 				return fail("pre-attempt-lost", "no 'gone' notice after a half-attached output left")
+			}
+		case "refused-io":
+			/* A bidirectional client beside a held input: it is refused,
+			and is no shell. */
+			ci, err := openIn(fmt.Sprintf("pre%d", i))
+			if nil != err {
+				return fail("listener-closed-early", fmt.Sprintf("pre-attempt %d (%s): %v", i, pre, err))
+			}
+			if !waitNotice(`Input connected`) {
+				return fail("pre-attempt-lost", "no 'Input connected' notice")
+			}
+			cio, err := hworld.DialAddr(addr, "")
+			if nil != err {
+				return fail("listener-closed-early", fmt.Sprintf("pre-attempt %d (%s): %v", i, pre, err))
+			}
+			cio.Send("POST /io HTTP/1.1\r\nHost: x\r\nTransfer-Encoding: chunked\r\n\r\n")
+			if !waitNotice(`Rejected`) {
+				return fail("pre-attempt-lost", "no refusal notice for the /io client")
+			}
+			cio.Close()
+			if !canConnect() {
+				return fail("listener-closed-early", fmt.Sprintf("pre-attempt %d (%s): after a refused /io client, with only an input stream attached, the listen address no longer accepts connections", i, pre))
+			}
+			ci.Close()
+			if !waitNotice(`Shell is gone`) {
+				return fail("pre-attempt-lost", "no 'gone' notice")
 			}
 		case "refused-out":
 			ci, err := openIn(fmt.Sprintf("pre%d", i))
@@ -236,7 +265,11 @@ func c12Run(c c12Case, base string) (string, string) {
 	}
 	/* ... and goes on working: a second round trip a few seconds later
 	(anything that gives up on lingering connections would have by now). */
-	time.Sleep(2500 * time.Millisecond)
+	quiet := 2500 * time.Millisecond
+	if 0 != c.QuietMs {
+		quiet = time.Duration(c.QuietMs) * time.Millisecond
+	}
+	time.Sleep(quiet)
 	p.Send("second-marker-line\r")
 	ci.C.SetReadDeadline(time.Now().Add(c12Wait))
 	for got = ""; !strings.Contains(got, "second-marker-line"); {
@@ -303,7 +336,7 @@ func c12(r *ev.Result, tier string) {
 	quick := isQuick(tier)
 	base := ev.Scratch("c12-")
 	defer os.RemoveAll(base)
-	preMenu := []string{"half-in", "half-out", "refused-out"}
+	preMenu := []string{"half-in", "half-out", "refused-out", "refused-io"}
 	pres := [][]string{nil}
 	for _, a := range preMenu {
 		pres = append(pres, []string{a})
@@ -337,9 +370,18 @@ func c12(r *ev.Result, tier string) {
 			}
 		}
 	}
-	r.Rule = "the real binary with -one-shell on a pty, real TLS clients: pre-attempt sequences (length <=1 quick, <=2 thorough) over {half-attached input that leaves, half-attached output that leaves, refused output next to a held input} " +
+	/* A shell left alone for longer after the listener closed (anything
+	that gives lingering connections a grace period would have run out). */
+	long := 8000
+	if !quick {
+		long = 35000
+	}
+	for _, arr := range []string{"in-out", "io"} {
+		cases = append(cases, c12Case{Arrival: arr, Ending: "eof", Trigger: "line", QuietMs: long})
+	}
+	r.Rule = "the real binary with -one-shell on a pty, real TLS clients: pre-attempt sequences (length <=1 quick, <=2 thorough) over {half-attached input that leaves, half-attached output that leaves, refused output next to a held input, refused /io client next to a held input} " +
 		"x arrival {/i then /o, /o then /i, /io} x ending {client closes input, output, both, output ends with EOF} x traffic in flight {none, 3 lines + 3 chunks} x exit trigger {line, Ctrl+D} (quick: the last two alternate over the product); " +
-		"oracle: connects succeed until the shell is fully attached and are refused within 20 s after the ready notice, a marker goes both ways after the close, nothing in flight is lost, no one-liners after the shell is gone, exit 0 + Goodbye after at most one more line, termios restored"
+		"oracle: connects succeed until the shell is fully attached and are refused within 20 s after the ready notice, a marker goes both ways after the close and again 2.5 s (two cases: 8 s, thorough 35 s) later, nothing in flight is lost, no one-liners after the shell is gone, exit 0 + Goodbye after at most one more line, termios restored"
 	var mu sync.Mutex
 	parallel(len(cases), func(i int) {
 		sig, what := c12Run(cases[i], base)
